@@ -473,6 +473,14 @@ class FakeSocketModule:
     def socket(self, *a, **k):
         return ListenSocket(self.net)
 
+    def __getattr__(self, name):
+        # constants, exception classes and helpers of the real module (IPPROTO_TCP, TCP_NODELAY,
+        # timeout, gaierror ...); nothing that would open a real socket
+        import socket as real
+        if name in ("socket", "create_connection", "create_server", "socketpair", "fromfd", "socket_type"):
+            raise AttributeError(name)
+        return getattr(real, name)
+
 
 class FakeSelector:
     def __init__(self, net):
